@@ -169,7 +169,15 @@ class ClassAnalysis:
         self.hooks = {}
         self.hook_errors = {}
         for c in self.families:
-            self.hooks[c.name] = K.analyse_hook(repo, c, self.gens)
+            try:
+                self.hooks[c.name] = K.analyse_hook(repo, c, self.gens)
+            except AnalysisError as ex:
+                # outside the fragment of the hook interpreter: the family has no emissions here; its formulas are decided by the unrolled hook
+                # (rules/hookprog.py) or, failing that, the analysis error is raised by R-FORMULA
+                self.hook_errors[c.name] = str(ex)
+                hr = K.HookResult()
+                hr.fn, hr.cls = c.find_method(K.HOOK), c
+                self.hooks[c.name] = hr
         self.ref = {}
         se = SpecEval(self.spec)
         for fam, entries in self.spec.CLASSES.items():
@@ -277,6 +285,13 @@ def r_formula(ctx, side, only=None):
         if fam not in ca.ref:
             raise AnalysisError("class family %s (%s) has no entry in the reference table spec/classes.py" % (fam, c.module.rel))
         hook = ca.hooks[fam]
+        if fam in ca.hook_errors:
+            from . import hookprog
+            v = hookprog.r_hook_programs(ctx, side, only={fam}).get(fam)
+            if v is None:
+                raise AnalysisError(ca.hook_errors[fam])
+            ctx.notes.append("R-FORMULA %s: hook outside the fragment of the hook interpreter (%s); decided by the unrolled hook (R-HOOKPROG)" % (fam, ca.hook_errors[fam]))
+            continue
         m = ca.matches[fam]
         for em in hook.emissions:
             n_cond += 1
